@@ -72,6 +72,12 @@ func (c19) Gen(rs uint64, tier string, race bool) interface{} {
 	n := 1 + r.Intn(6)
 	l := 3 + r.Intn(28)
 	lower := r.Chance(0.2)
+	long := r.Chance(0.004)
+	if long {
+		// around and beyond a thousand columns: sizes at which an implementation may switch to another code path
+		n = r.Range(2, 4)
+		l = r.Pick(255, 256, 257, 999, 1000, 1001, 1024, 1500, 2100)
+	}
 	for i := 0; i < n; i++ {
 		a.Names = append(a.Names, fmt.Sprintf("s%d", i))
 		a.Seqs = append(a.Seqs, genResidues(r, l, a.Alphabet, lower, "-", 0.1))
@@ -103,6 +109,9 @@ func (c19) Gen(rs uint64, tier string, race bool) interface{} {
 		a.Seqs[0] = string(s)
 	}
 	nops := r.Range(2, 14)
+	if long {
+		nops = r.Range(2, 6)
+	}
 	for k := 0; k < nops; k++ {
 		op := C19Op{T: r.Intn(64), U: r.Intn(64), I: r.Intn(64), J: r.Intn(64), N: r.Intn(64), Flag: r.Bool(), Seed: int64(r.U64() >> 1)}
 		switch x := r.Intn(10); {
